@@ -26,6 +26,7 @@ CLAUSES = {
     "C15": ["C15_dir", "C15_views", "C15_addrm"],
     "C18": ["C18_confine"],
     "C19": ["C19_order", "C19_pace", "C19_auto"],
+    "C08": ["C08_done"],
 }
 
 BASE_CONST = {
@@ -78,6 +79,12 @@ MC.update({
              {"Configs": "c08_Configs", "Requests": "c08_Requests"}),
 })
 del MC["c09"]
+MC.update({
+    "c15": ({"MaxReq": "2", "MaxDie": "0", "ReqUntil": "3", "MaxNow": "7", "MaxPid": "6"},
+            {"Configs": "c15_Configs", "Requests": "c15_Requests"}),
+    "c15t": ({"MaxReq": "3", "MaxDie": "0", "ReqUntil": "2", "MaxNow": "6", "MaxPid": "6"},
+             {"Configs": "c15_Configs", "Requests": "c15_Requests"}),
+})
 
 PROPS = {
     "C01": {"mc_quick": ["c01"], "mc_thorough": ["c01", "c01_deep"],
@@ -96,6 +103,12 @@ PROPS = {
             "profiles": {"default": (80, 2000), "excl": (120, 3000)}, "conf": {"conf_full": (60, 800)}},
     "C14": {"mc_quick": ["c14"], "mc_thorough": ["c14", "c04"],
             "profiles": {"hooks": (200, 5000)}, "conf": {"conf_full": (60, 800)}},
+    "C13": {"mc_quick": ["c01"], "mc_thorough": ["c01", "c01_deep"],
+            "profiles": {"default": (80, 2000), "count": (120, 3000)}, "conf": {"conf_full": (60, 800)}},
+    "C15": {"mc_quick": ["c15"], "mc_thorough": ["c15", "c15t"],
+            "profiles": {"directory": (200, 5000)}, "conf": {"conf_dir": (80, 1000)}},
+    "C08": {"mc_quick": ["c08q"], "mc_thorough": ["c08"],
+            "profiles": {"shutdown": (200, 5000)}, "conf": {"conf_full": (60, 800)}},
     "C18": {"mc_quick": ["c18"], "mc_thorough": ["c18", "c03"],
             "profiles": {"signals": (200, 5000)}, "conf": {"conf_full": (60, 800)}},
     "C19": {"mc_quick": ["c19q"], "mc_thorough": ["c19"],
